@@ -63,6 +63,33 @@ def gen_req(rng):
     return s, fields(lang, script, region, variants)
 
 
+def gen_req_near(rng, univ):
+    """a request derived from a supported locale: the locale itself, or with one subtag dropped / added (seeded changes
+    C12g and C15g only show on a request with a variant or two optional subtags next to its less specific forms)"""
+    lang, script, region, vs = rng.choice(univ).split("/")
+    lang = lang or "und"
+    variants = [v for v in vs.split(".") if v]
+    r = rng.random()
+    if r < 0.3:
+        pass
+    elif r < 0.45 and variants:
+        variants = variants[:-1]
+    elif r < 0.55 and region:
+        region = ""
+    elif r < 0.62 and script:
+        script = ""
+    elif r < 0.78:
+        variants = sorted(set(variants + [rng.choice(["posix", "valencia", "1996"])]))
+    elif r < 0.9 and not region:
+        region = rng.choice(REGIONS[1:])
+    elif not script:
+        script = rng.choice(SCRIPTS[1:])
+    parts = [lang] + ([script] if script else []) + ([region] if region else [])
+    sv = list(variants)
+    rng.shuffle(sv)
+    return "-".join(parts + sv), fields(lang, script or None, region or None, variants)
+
+
 class Interner:
     def __init__(self):
         self.t = {}
@@ -85,7 +112,8 @@ def coq_langid(f, intern):
         core.coq_list(vl))
 
 
-def gen_cases(ctx, n_univ):
+def gen_cases(ctx, univ):
+    n_univ = len(univ)
     rng = ctx.rng
     cases = []
     # corpus first: the witness of the pre-fix defect and the unit tests of the repository
@@ -101,8 +129,8 @@ def gen_cases(ctx, n_univ):
         if rng.random() < 0.05 and avail:
             avail.append(rng.choice(avail))  # a duplicate entry in the slice
         nreq = rng.choice([0, 1, 1, 2, 2, 3, 3, 4])
-        reqs = [gen_req(rng) for _ in range(nreq)]
-        # bias: requests close to available locales
+        # bias: half of the requests are close to supported locales
+        reqs = [gen_req_near(rng, univ) if rng.random() < 0.5 else gen_req(rng) for _ in range(nreq)]
         cases.append((avail, reqs))
     if not ctx.quick:
         # exhaustive over a small closed universe: all subsets (in index order) of 6 locales x all request lists of length <= 2
@@ -126,7 +154,7 @@ def run(ctx):
     if rc != 0 or not out.startswith("U "):
         raise core.Infra("h_rt langid failed: " + err[-400:])
     univ = out.splitlines()[0][2:].split(",")
-    cases = gen_cases(ctx, len(univ))
+    cases = gen_cases(ctx, univ)
     inp = "".join("%s|%d|%s\n" % (",".join(map(str, a)), len(r), "\x1f".join(s for s, _ in r)) for a, r in cases)
     rc, out, err = core.sh([exe, "langid"], input=inp, timeout=600)
     lines = out.splitlines()[1:]
